@@ -160,6 +160,7 @@ func (n UnixFSHAMTShard) loadChild(pbLink dagpb.PBLink) (UnixFSHAMTShard, error)
 	if err != nil {
 		return nil, err
 	}
+	verifAt("hamt.loadChild.store")
 	n.shardCache[pbLink.FieldHash().Link()] = und
 	return und, nil
 }
@@ -291,6 +292,7 @@ func (n UnixFSHAMTShard) length() (int64, error) {
 			total += cl
 		}
 	}
+	verifAt("hamt.length.store")
 	n.cachedLength = total
 	return total, nil
 }
